@@ -197,16 +197,19 @@ func genFailingSave(t *rapid.T) Case {
 	c := Case{ProgA: progA, Fsize: -1, Oversized: name,
 		MemLimit: rapid.SampledFrom([]string{"48MiB", "64MiB", "96MiB"}).Draw(t, "memlimit")}
 	ref := withoutBinding(def, name)
+	// The session must not end with the oversized value: the result of the last statement is printed, the refusal
+	// of that counts as a failed evaluation and no save is attempted after one.
+	tail := around
+	if tail == "" {
+		tail = "0"
+	}
 	switch rapid.IntRange(0, 2).Draw(t, "where") {
 	case 0:
 		c.ProgB, c.ProgBRef = join(def, progB, around), join(ref, progB, around)
 	case 1:
-		c.ProgB, c.ProgBRef = join(progB, def, around), join(progB, ref, around)
+		c.ProgB, c.ProgBRef = join(progB, def, tail), join(progB, ref, tail)
 	default:
-		c.ProgB, c.ProgBRef = join(around, progB, def), join(around, progB, ref)
-	}
-	if c.ProgBRef == "" {
-		c.ProgBRef = "0"
+		c.ProgB, c.ProgBRef = join(around, def, progB), join(around, ref, progB)
 	}
 	return c
 }
@@ -227,6 +230,9 @@ func TestFailingSaves(t *testing.T) {
 			kept = "failing-save:previous-file-kept"
 		}
 		// non-trivial: there was a previous file to damage and the save stopped after it had written something
+		if !out.partialTmp {
+			pbt.Label("failing-save:no-partial-temporary-file-left")
+		}
 		pbt.Case(c.ProgA != "" && out.partialTmp, c.ProgA+"|"+c.ProgB+"|"+c.MemLimit, lbl, kept)
 		pbt.Sample("failing-save", map[string]any{"A": string(trunc([]byte(c.ProgA))), "B": string(trunc([]byte(c.ProgB))), "memlimit": c.MemLimit, "oversized": c.Oversized})
 	})
